@@ -21,7 +21,7 @@ from .tokdiff import TokOracle, help_names, assume_not_named, run_tok_job, finis
 from .corpus import CORPUS
 
 PROP = "C10"
-GRAMMARS = ["g1", "p1", "c1", "c2", "c3", "h1", "h2", "o1", "a1", "k2", "v1"]
+GRAMMARS = ["g1", "p1", "c1", "c2", "c3", "c4", "h1", "h2", "o1", "a1", "k2", "k3", "k4", "v1"]
 # which command levels configured a version (path of primary command names -> bool)
 VERSIONS = {"h1": {(): True}, "h2": {(): False, ("add",): True}}
 
@@ -89,7 +89,7 @@ def entered_chain(ex, env, level, items):
 class Oracle(TokOracle):
     assumptions = [
         "one Short/Long item without attached value, left of `--`, is the help (resp. version) flag; all other items are unconstrained",
-        "grammars without a reference Level (a1, k2) have no subcommands: the expected path is empty",
+        "grammars without a reference Level (a1, k2, k3, k4) have no subcommands: the expected path is empty",
     ]
 
     def __init__(self, mode, which):
@@ -120,35 +120,42 @@ class Oracle(TokOracle):
             assume_not_named(ex, words, hs, hl)
 
     @staticmethod
-    def enclosing_arg_without_value(ex, env, g, items, chain):
-        """role of a known finding: an *enclosing* level's argument name stands to the right of the
-        entered subcommand's name and is not followed by a value"""
+    def ancestor_field_fails(ex, env, g, items, chain):
+        """role of the known finding: a subcommand was entered and a named field of an *enclosing*
+        level fails on this line (required but missing, argument name without a value, invalid
+        value, single-use item given twice); construct! then reports that field's error and the
+        subcommand's help output is lost"""
         level = g.level
-        start = 0
-        anc = []
+        hi = len(items)
+        for i, it in enumerate(items):
+            if it.kind == "dd":
+                hi = i
+                break
         for nm in chain:
-            anc.extend(f for f in level_named(level) if f.kind == "arg")
+            for f in level_named(level):
+                occ = 0
+                for i in range(hi):
+                    it = items[i]
+                    if it.kind in ("short", "long") and G.name_match(ex, env, f, it):
+                        occ += 1
+                        if f.kind == "arg":
+                            if i + 1 >= hi or items[i + 1].kind not in ("word", "argword"):
+                                return True
+                            if not ex.branch(env.valid(items[i + 1].val), "role-valid"):
+                                return True
+                if f.kind == "arg" and f.arity == "req" and occ == 0:
+                    return True
+                if f.kind == "req_flag" and occ == 0:
+                    return True
+                if occ > 1 and (f.kind in ("switch", "req_flag") or (f.kind == "arg" and f.arity in ("req", "opt", "fallback"))):
+                    return True
             nxt = None
             for f in level.fields:
                 if isinstance(f, G.Cmds):
                     for cmd in f.cmds:
                         if cmd.names[0] == nm:
                             nxt = cmd
-            # position of the command word
-            for i in range(start, len(items)):
-                if items[i].kind == "word" and ex.branch(z3.Or(*[items[i].val == env.intern(x) for x in nxt.names]), "role-cmd"):
-                    start = i + 1
-                    break
             level = nxt.level
-        for i in range(start, len(items)):
-            it = items[i]
-            if it.kind == "dd":
-                break
-            if it.kind in ("short", "long"):
-                for f in anc:
-                    if G.name_match(ex, env, f, it):
-                        if i + 1 >= len(items) or items[i + 1].kind not in ("word", "argword"):
-                            return True
         return False
 
     def judge(self, ex, g, words, cls, payload, state, report, out):
@@ -166,8 +173,8 @@ class Oracle(TokOracle):
                     return
             if cls != "stdout":
                 extra = None
-                if chain and self.enclosing_arg_without_value(ex2, env, g, items, chain):
-                    extra = {"finding_key": "enclosing-argument-without-value-right-of-subcommand"}
+                if chain and self.ancestor_field_fails(ex2, env, g, items, chain):
+                    extra = {"finding_key": "enclosing-level-field-fails-and-hides-subcommand-help"}
                 report("%s-does-not-win" % self.mode, words, (cls, payload), ["stdout", "level %r" % (chain,)], extra)
                 return
             if self.mode == "help":
